@@ -129,7 +129,7 @@ def dirEvaluate (s : DirSt) (score : F) : Except Err DirSt :=
   if ¬ s.iterState then .ok { s with tr := tr' }
   else
     match s.tape with
-    | .spiral [b] :: rest =>
+    | .vec [b] :: rest =>
       let subs' := match s.cur with
         | some i => s.subs.modify i (fun sb => { sb with score := some score, bound := b })
         | none => s.subs                               -- the removed parent gets the score
